@@ -263,11 +263,11 @@ func ruleTokenWriters(c *Ctx) {
 	runGates(c, []GateSpec{{
 		ID: "NEO.increaseBalance.funds-first", Fn: [3]string{natPkg, "NEO", "increaseBalance"},
 		Target: "call:pkg/core/native.(*NEO).ModifyAccountVotes|pkg/core/native.(*NEO).modifyVoterTurnout|math/big.(*Int).Add", MinSites: 3,
-		Guards: []Guard{{ID: "funds", Doc: "the balance covers the amount taken", Alts: [][]string{{"pkg/core/state#Balance", "param:amount", "math/big.(*Int).CmpAbs"}}, Whole: true, Extra: fundsExtra}},
+		Guards: []Guard{{ID: "funds", Doc: "the balance covers the amount taken", Alts: [][]string{{"pkg/core/state#Balance", "param#3", "math/big.(*Int).CmpAbs"}}, Whole: true, Extra: fundsExtra}},
 	}, {
 		ID: "GAS.increaseBalance.funds-first", Fn: [3]string{natPkg, "GAS", "increaseBalance"},
 		Target: "call:math/big.(*Int).Add",
-		Guards: []Guard{{ID: "funds", Doc: "the balance covers the amount taken", Alts: [][]string{{"pkg/core/state#Balance", "param:amount", "math/big.(*Int).CmpAbs"}}, Whole: true, Extra: fundsExtra}},
+		Guards: []Guard{{ID: "funds", Doc: "the balance covers the amount taken", Alts: [][]string{{"pkg/core/state#Balance", "param#3", "math/big.(*Int).CmpAbs"}}, Whole: true, Extra: fundsExtra}},
 	}})
 	ruleTurnoutFlip(c)
 	// a stored candidate record is never replaced by a blank one: the fresh record is created only when none is stored
